@@ -45,6 +45,8 @@ var boundaryAddrs = []string{
 	"100.64.0.1", "169.254.1.1", "8.8.8.8", "198.51.100.7",
 	"fc00::", "fdff:ffff:ffff:ffff:ffff:ffff:ffff:ffff", "fbff:ffff:ffff:ffff:ffff:ffff:ffff:ffff", "fe00::", "fd12:3456:789a::1", "fc00::1",
 	"2001:db8::1", "fe80::1", "2606:4700::1111",
+	// public IPv6 addresses whose last 32 bits read like a private IPv4 address (10.0.0.1, 192.168.1.1, 172.16.0.5)
+	"2a01:4f8:0:1::a00:1", "2606:4700:10::c0a8:101", "2001:4860:0:1::ac10:5",
 }
 
 func boundaryIP(r *rand.Rand, i int) net.IP {
@@ -115,6 +117,10 @@ func checkRedaction(c *fw.Ctx, tag string, plain, red *result.Results) {
 				}
 			}
 		}
+	}
+	// "the number of hops is unchanged" also for the number the document itself reports
+	if plain.Traceroute.HopCount != red.Traceroute.HopCount {
+		viol("hop-count-stats", fmt.Sprintf("traceroute.hop_count %+v without the flag, %+v with it", plain.Traceroute.HopCount, red.Traceroute.HopCount))
 	}
 }
 
